@@ -16,6 +16,8 @@ Inductive obs :=
 | OInc (i : nat)
 | OInit
 | OStore (c : cell) (leader_is_elected : bool)
+| OConfigStore (c : cell) (leader_is_elected : bool)     (* the shard entry inside a Store made by ConfigChanged *)
+| OCrashCfg
 | ONewTerms (t : Z) (targets : list server)
 | OQFail
 | OBecomeLeader (t : Z) (rf : nat) (cands : list server) (res : list (server * eid))
